@@ -7,6 +7,7 @@ AS_H = 'src/tbb/arena_slot.h'
 TD_CPP = 'src/tbb/task_dispatcher.cpp'
 PF_H = 'include/oneapi/tbb/parallel_for.h'
 MB_H = 'src/tbb/mailbox.h'
+FGJ_H = 'include/oneapi/tbb/detail/_flow_graph_join_impl.h'
 FG_H = 'include/oneapi/tbb/flow_graph.h'
 FGN_H = 'include/oneapi/tbb/detail/_flow_graph_node_impl.h'
 FGC_H = 'include/oneapi/tbb/detail/_flow_graph_cache_impl.h'
@@ -537,6 +538,41 @@ MUTANTS = [
          "    d1::task* cancel(d1::execution_data& ed) override {\n        BaseTaskType::template destruct_and_deallocate<apply_body_task_bypass>(ed);")]),
     dict(name='c14-task-for-inactive-graph', prop='C14', clause='D5', edits=[
         (FGN_H, "    inline graph_task* create_forward_task() {\n        if (!is_graph_active(my_graph_ref)) {\n            return nullptr;\n        }", "    inline graph_task* create_forward_task() {")]),
+    # ---------------------------------------------------------------- C15
+    dict(name='c15-limiter-missing-dec', prop='C15', clause='D1', edits=[
+        (FG_H, "        {\n            spin_mutex::scoped_lock lock(my_mutex);\n            --my_tries;\n            if (reserved) my_predecessors.try_release();",
+         "        {\n            spin_mutex::scoped_lock lock(my_mutex);\n            if (reserved) --my_tries;\n            if (reserved) my_predecessors.try_release();")]),
+    dict(name='c15-limiter-count-unlocked', prop='C15', clause='D1', edits=[
+        (FG_H, "        {\n            spin_mutex::scoped_lock lock(my_mutex);\n            if ( my_count + my_tries >= my_threshold )\n                return nullptr;\n            else\n                ++my_tries;\n        }",
+         "        {\n            if ( my_count + my_tries >= my_threshold )\n                return nullptr;\n            spin_mutex::scoped_lock lock(my_mutex);\n            ++my_tries;\n        }")]),
+    dict(name='c15-limiter-no-release', prop='C15', clause='D1', edits=[
+        (FG_H, "            if (reserved) my_predecessors.try_release();", "            (void)reserved;")]),
+    dict(name='c15-limiter-count-on-reject', prop='C15', clause='D1', edits=[
+        (FG_H, "        if ( !rtask ) {  // try_put_task failed.\n            spin_mutex::scoped_lock lock(my_mutex);\n            --my_tries;", "        if ( !rtask ) {  // try_put_task failed.\n            spin_mutex::scoped_lock lock(my_mutex);\n            ++my_count;\n            --my_tries;")]),
+    dict(name='c15-join-reserve-no-release', prop='C15', clause='D2', edits=[
+        (FGJ_H, "            if ( !join_helper<N-1>::reserve( my_input, out ) ) {\n                release_my_reservation( my_input );\n                return false;\n            }",
+         "            if ( !join_helper<N-1>::reserve( my_input, out ) ) {\n                return false;\n            }")]),
+    dict(name='c15-join-accept-on-reject', prop='C15', clause='D2', edits=[
+        (FGJ_H, "                                    else {\n                                        tuple_rejected();\n                                        build_succeeded = false;\n                                    }",
+         "                                    else {\n                                        tuple_accepted();\n                                        build_succeeded = false;\n                                    }")]),
+    dict(name='c15-sequencer-accepts-stale', prop='C15', clause='D3', edits=[
+        (FG_H, "        if (tag < this->my_head) {\n            // have already emitted a message with this tag\n            op->status.store(FAILED, std::memory_order_release);\n            return false;\n        }", "")]),
+    dict(name='c15-queue-pop-while-reserved', prop='C15', clause='D3', edits=[
+        (FG_H, "    void internal_pop(queue_operation *op) override {\n        if ( this->my_reserved || !this->my_item_valid(this->my_head)){", "    void internal_pop(queue_operation *op) override {\n        if ( !this->my_item_valid(this->my_head)){")]),
+    dict(name='c15-prio-release-loses-item', prop='C15', clause='D3', edits=[
+        (FG_H, "        op->status.store(SUCCEEDED, std::memory_order_release);\n        prio_push(reserved_item __TBB_FLOW_GRAPH_METAINFO_ARG(reserved_metainfo));\n        this->my_reserved = false;",
+         "        op->status.store(SUCCEEDED, std::memory_order_release);\n        this->my_reserved = false;")]),
+    dict(name='c15-write-once-overwrites', prop='C15', clause='D4', edits=[
+        (FG_H, "        return this->my_buffer_is_valid ? nullptr : this->try_put_task_impl(v __TBB_FLOW_GRAPH_METAINFO_ARG(message_metainfo{}));",
+         "        return this->try_put_task_impl(v __TBB_FLOW_GRAPH_METAINFO_ARG(message_metainfo{}));")]),
+    dict(name='c15-overwrite-get-unlocked', prop='C15', clause='D4', edits=[
+        (FG_H, "    bool try_get( input_type &v ) override {\n        spin_mutex::scoped_lock l( my_mutex );\n        if ( my_buffer_is_valid ) {", "    bool try_get( input_type &v ) override {\n        if ( my_buffer_is_valid ) {")]),
+    dict(name='c15-split-wrong-port', prop='C15', clause='D5', edits=[
+        (FGN_H, "        graph_task* last_task = std::get<N-1>(p).try_put_task(std::get<N-1>(t));\n        check_task_and_spawn(g, last_task);\n        return emit_element<N-1>::emit_this(g,t,p);",
+         "        graph_task* last_task = std::get<N-1>(p).try_put_task(std::get<(N>2?N-2:N-1)>(t));\n        check_task_and_spawn(g, last_task);\n        return emit_element<N-1>::emit_this(g,t,p);")]),
+    dict(name='c15-indexer-wrong-tag', prop='C15', clause='D5', edits=[
+        ('include/oneapi/tbb/detail/_flow_graph_indexer_impl.h', "            auto indexer_node_put_task = do_try_put<IndexerNodeBaseType, T, N-1>;\n            std::get<N-1>(my_input).set_up(p, indexer_node_put_task, g);\n            indexer_helper<TupleTypes,N-1>",
+         "            auto indexer_node_put_task = do_try_put<IndexerNodeBaseType, T, 0>;\n            std::get<N-1>(my_input).set_up(p, indexer_node_put_task, g);\n            indexer_helper<TupleTypes,N-1>")]),
 ]
 
 BENIGN = [
@@ -582,4 +618,6 @@ BENIGN = [
     dict(name='c14-b-status-helper', prop='C14', edits=[
         (FGN_H, "            case rem_pred:\n                my_predecessors.remove(*(tmp->r));\n                tmp->status.store(SUCCEEDED, std::memory_order_release);\n                break;",
          "            case rem_pred:\n                my_predecessors.remove(*(tmp->r));\n                tmp->status.store(SUCCEEDED);\n                break;")]),
+    dict(name='c15-b-limiter-check-conditions', prop='C15', edits=[
+        (FG_H, "            if ( my_count + my_tries >= my_threshold )\n                return nullptr;\n            else\n                ++my_tries;", "            if ( !(my_count + my_tries < my_threshold) )\n                return nullptr;\n            else\n                ++my_tries;")]),
 ]
